@@ -132,6 +132,10 @@ func (r SenderReport) Marshal() ([]byte, error) {
 
 // Unmarshal decodes the SenderReport from binary
 func (r *SenderReport) Unmarshal(rawPacket []byte) error {
+	// Clear any existing entries
+	r.Reports = nil
+	r.ProfileExtensions = nil
+
 	/*
 	 *         0                   1                   2                   3
 	 *         0 1 2 3 4 5 6 7 8 9 0 1 2 3 4 5 6 7 8 9 0 1 2 3 4 5 6 7 8 9 0 1
